@@ -39,6 +39,42 @@ type te7 struct {
 }
 
 // State of the interpreter: one current instance.
+// namedU32 is a DEFINED type over uint32: a decoder that switches on Kind() instead of the type hands back a
+// plain uint32, which is not the value the caller supplied (its v.(namedU32) would panic).
+type namedU32 uint32
+
+// wantType: the dynamic type of the values a trie with this encoder was built from, hence of every value a
+// lookup may return.  nil = not checked.
+func wantType(encName string) reflect.Type {
+	switch encName {
+	case "i8":
+		return reflect.TypeOf(int8(0))
+	case "i16":
+		return reflect.TypeOf(int16(0))
+	case "i32":
+		return reflect.TypeOf(int32(0))
+	case "i64":
+		return reflect.TypeOf(int64(0))
+	case "u16":
+		return reflect.TypeOf(uint16(0))
+	case "u32":
+		return reflect.TypeOf(uint32(0))
+	case "u64":
+		return reflect.TypeOf(uint64(0))
+	case "int":
+		return reflect.TypeOf(int(0))
+	case "s16":
+		return reflect.TypeOf("")
+	case "f64":
+		return reflect.TypeOf(float64(0))
+	case "te7":
+		return reflect.TypeOf(te7{})
+	case "nu32":
+		return reflect.TypeOf(namedU32(0))
+	}
+	return nil
+}
+
 type State struct {
 	St      *slim.SlimTrie
 	Enc     encode.Encoder
@@ -84,6 +120,13 @@ func EncoderOf(name string) encode.Encoder {
 			panic(err)
 		}
 		return e
+	case "nu32":
+		// a *encode.TypeEncoder over a defined integer type
+		e, err := encode.NewTypeEncoderEndian(namedU32(0), binary.LittleEndian)
+		if err != nil {
+			panic(err)
+		}
+		return e
 	case "te7":
 		// a *encode.TypeEncoder over a fixed-size struct (7 bytes, little endian)
 		e, err := encode.NewTypeEncoderEndian(te7{}, binary.LittleEndian)
@@ -106,6 +149,14 @@ func EncoderOf(name string) encode.Encoder {
 func typedValues(enc encode.Encoder, vals [][]byte) interface{} {
 	if enc == nil {
 		return nil
+	}
+	if te, ok := enc.(*encode.TypeEncoder); ok && te.Type == reflect.TypeOf(namedU32(0)) {
+		// built by hand, NOT through Decode: the caller's own type
+		out := make([]namedU32, 0, len(vals))
+		for _, b := range vals {
+			out = append(out, namedU32(binary.LittleEndian.Uint32(b)))
+		}
+		return out
 	}
 	if len(vals) == 0 {
 		// a typed empty slice
@@ -191,7 +242,12 @@ func (s *State) valStr(v interface{}) string {
 	if v == nil {
 		return "nil"
 	}
-	return lp.X(s.Enc.Encode(v))
+	out := lp.X(s.Enc.Encode(v))
+	if t := wantType(s.EncName); t != nil && reflect.TypeOf(v) != t {
+		// "exactly the value supplied": same dynamic type, not only the same bytes
+		out += "!type=" + reflect.TypeOf(v).String()
+	}
+	return out
 }
 
 func b01(t string) bool { return t == "1" }
